@@ -35,6 +35,21 @@ func main() {
 		runtime.GOMAXPROCS(1)
 		schedWorker()
 		return
+	case "c14worker":
+		runtime.GOMAXPROCS(1)
+		c14Worker()
+		return
+	case "c14base":
+		for i := range c14Scenarios {
+			o := runC14(&c14Scenarios[i], nil, true)
+			fmt.Printf("%s: sig=%q detail=%.200q calls=%v boot=%v\n", c14Scenarios[i].Name, o.Sig, o.Detail, o.Calls, o.Boot)
+			if len(os.Args) > 2 {
+				for _, l := range o.Trace {
+					fmt.Println("   ", l)
+				}
+			}
+		}
+		return
 	case "c11worker":
 		runtime.GOMAXPROCS(1)
 		c11Worker()
